@@ -493,7 +493,15 @@ func (g *G) where() string {
 		op := g.R.Pick([]string{"=", " = ", "<", ">=", "<>", " LIKE ", "&", "|", "+1=", "%", "-", "/"})
 		switch g.R.Intn(4) {
 		case 0:
-			q += g.R.Pick(plainIdents) + " IN (" + g.sliceInput() + g.R.Pick([]string{"", ", " + g.memberInput(), ", 1"}) + ")"
+			// the slice first, last or in the middle of the list
+			switch g.R.Intn(4) {
+			case 0:
+				q += g.R.Pick(plainIdents) + " IN (" + g.R.Pick([]string{g.memberInput(), "1, 2", "'x'", g.memberInput() + ", 7"}) + ", " + g.sliceInput() + g.R.Pick([]string{"", "", ", " + g.memberInput(), ", 1"}) + ")"
+			case 1:
+				q += g.R.Pick(plainIdents) + " IN (" + g.sliceInput() + "," + g.sliceInput() + ", " + g.sliceInput() + ")"
+			default:
+				q += g.R.Pick(plainIdents) + " IN (" + g.sliceInput() + g.R.Pick([]string{"", ", " + g.memberInput(), ", 1"}) + ")"
+			}
 		case 1:
 			q += g.R.Pick(plainIdents) + op + g.R.Pick(literals)
 		default:
